@@ -220,3 +220,7 @@ mod tests {
         assert_eq!(decoder.long(&mut fresh).unwrap(), Some(1));
     }
 }
+
+#[cfg(kani)]
+#[path = "/verif/kani/arrow-avro/reader/vlq.rs"]
+mod verif_kani;
